@@ -159,6 +159,7 @@ structure SInv (T : Asg → Prop) (P : GParams V Sto) (s : St V Sto) : Prop wher
   dead : s.backtrack = true → ∀ σ, Unrep T s.out σ → ¬ Matches (P.dec s.cur) σ
   outT : ∀ o ∈ s.out, ∀ σ, Matches o σ → T σ
   outNodup : s.out.Nodup
+  outTV : ∀ o ∈ s.out, P.twoVal o = true ∧ P.OkG o
   outStored : ∀ o ∈ s.out, P.Mem s.store o ∨ (s.backtrack = true ∧ ∃ e rest, s.stack = e :: rest ∧ e.ng = o)
   choiceOK : s.choice = true → P.twoVal (P.dec s.cur) = false ∧ s.backtrack = false
   okc : P.Ok s.cur
@@ -196,7 +197,7 @@ theorem inv_step1 (hP : GSound T P) (k : Nat) {s : St V Sto} (h : SInv T P s) : 
       have hn := hP.heu_valid k s.cur v b h.okc hh
       have hd := hP.dec_set k s.cur v b h.okc hh
       have hok := hP.ok_set k s.cur v b h.okc hh
-      refine ⟨?_, ?_, h.storeOK, ?_, h.outT, h.outNodup, ?_, ?_, hok, h.oks, ?_⟩
+      refine ⟨?_, ?_, h.storeOK, ?_, h.outT, h.outNodup, h.outTV, ?_, ?_, hok, h.oks, ?_⟩
       · rw [hd]
         exact Chain.choice _ s.cur v b s.stack (fun _ _ m => m) hn h.chain
       · intro σ u
@@ -301,7 +302,7 @@ theorem inv_step3 (hP : GSound T P) {s1 : St V Sto} (h : SInv T P s1) (hc : s1.c
   · rw [if_pos hb]
     have ⟨a, b, c, d, e, f, g, i⟩ := popLoop_spec hP (U := Unrep T s1.out) s1.stack s1.store (P.dec s1.cur) s1.cur
       h.chain (h.dead hb) h.storeOK (h.dead hb) h.oks h.okstk h.okc
-    refine ⟨⟨d, ?_, a, ?_, h.outT, h.outNodup, ?_, ?_, i, f, g⟩, rfl, hc⟩
+    refine ⟨⟨d, ?_, a, ?_, h.outT, h.outNodup, h.outTV, ?_, ?_, i, f, g⟩, rfl, hc⟩
     · intro σ u
       rcases h.cover σ u with hm | hl
       · exact absurd hm (h.dead hb σ u)
@@ -329,7 +330,7 @@ theorem inv_final (hP : GSound T P) {s3 : St V Sto} (h : SInv T P s3) (hb : s3.b
   unfold stepFinal
   by_cases hac : P.acIncons (P.dec s3.cur) = true
   · rw [if_pos hac]
-    refine ⟨h.chain, h.cover, h.storeOK, ?_, h.outT, h.outNodup, fun o ho => Or.inl (stored o ho), ?_, h.okc, h.oks, h.okstk⟩
+    refine ⟨h.chain, h.cover, h.storeOK, ?_, h.outT, h.outNodup, h.outTV, fun o ho => Or.inl (stored o ho), ?_, h.okc, h.oks, h.okstk⟩
     · intro _ σ u; exact hP.ac_sound _ h.okc hac σ u.1
     · intro hcc; simp only at hcc; rw [hc] at hcc; cases hcc
   · rw [if_neg hac]
@@ -337,7 +338,7 @@ theorem inv_final (hP : GSound T P) {s3 : St V Sto} (h : SInv T P s3) (hb : s3.b
     have forced : ∀ σ, Unrep T s3.out σ → Matches (P.dec s3.cur) σ → Matches (P.dec (P.gam s3.cur)) σ :=
       fun σ u m => hP.gam_sound _ σ h.okc u.1 m
     have base : SInv T P { s3 with cur := P.gam s3.cur } := by
-      refine ⟨h.chain.extend forced, ?_, h.storeOK, ?_, h.outT, h.outNodup, fun o ho => Or.inl (stored o ho), ?_,
+      refine ⟨h.chain.extend forced, ?_, h.storeOK, ?_, h.outT, h.outNodup, h.outTV, fun o ho => Or.inl (stored o ho), ?_,
         hP.ok_gam _ h.okc, h.oks, h.okstk⟩
       · intro σ u
         rcases h.cover σ u with hm | hl
@@ -356,7 +357,7 @@ theorem inv_final (hP : GSound T P) {s3 : St V Sto} (h : SInv T P s3) (hb : s3.b
         have hun' : updNg = false := by simpa using hun
         by_cases htv : (!P.twoVal (P.dec (P.gam s3.cur))) = true
         · rw [if_pos htv]
-          refine ⟨base.chain, base.cover, base.storeOK, ?_, base.outT, base.outNodup, base.outStored, ?_,
+          refine ⟨base.chain, base.cover, base.storeOK, ?_, base.outT, base.outNodup, base.outTV, base.outStored, ?_,
             base.okc, base.oks, base.okstk⟩
           · intro hbb; simp only at hbb; rw [hb] at hbb; cases hbb
           · intro _; exact ⟨by simpa using htv, hb⟩
@@ -367,7 +368,7 @@ theorem inv_final (hP : GSound T P) {s3 : St V Sto} (h : SInv T P s3) (hb : s3.b
           · rw [if_pos hit]
             rw [heq] at hit ⊢
             have sub : ∀ σ, Unrep T (s3.out ++ [P.dec s3.cur]) σ → Unrep T s3.out σ := unrep_snoc_sub
-            refine ⟨?_, ?_, ?_, ?_, ?_, ?_, ?_, ?_, h.okc, h.oks, ?_⟩
+            refine ⟨?_, ?_, ?_, ?_, ?_, ?_, ?_, ?_, ?_, h.okc, h.oks, ?_⟩
             · exact Chain.plain _ _ _ (fun _ _ m => m) (h.chain.mono sub)
             · intro σ u
               rcases h.cover σ (sub σ u) with hm | ⟨e, he, hl⟩
@@ -388,6 +389,10 @@ theorem inv_final (hP : GSound T P) {s3 : St V Sto} (h : SInv T P s3) (hb : s3.b
               exact hno hun' _ (stored _ ha) rfl
             · intro o ho
               rcases List.mem_append.mp ho with ho | ho
+              · exact h.outTV o ho
+              · rw [List.mem_singleton.mp ho]; exact ⟨htv', hokg⟩
+            · intro o ho
+              rcases List.mem_append.mp ho with ho | ho
               · left; exact stored o ho
               · right; rw [List.mem_singleton.mp ho]; exact ⟨rfl, _, _, rfl, rfl⟩
             · intro hcc; simp only at hcc; rw [hc] at hcc; cases hcc
@@ -398,7 +403,7 @@ theorem inv_final (hP : GSound T P) {s3 : St V Sto} (h : SInv T P s3) (hb : s3.b
           · rw [if_neg hit]
             rw [heq] at hit ⊢
             have hit' : P.isTarget (P.dec s3.cur) = false := by simpa using hit
-            refine ⟨?_, ?_, h.storeOK, ?_, h.outT, h.outNodup, fun o ho => Or.inl (stored o ho), ?_, h.okc, h.oks, ?_⟩
+            refine ⟨?_, ?_, h.storeOK, ?_, h.outT, h.outNodup, h.outTV, fun o ho => Or.inl (stored o ho), ?_, h.okc, h.oks, ?_⟩
             · exact Chain.plain _ _ _ (fun _ _ m => m) h.chain
             · intro σ u
               rcases h.cover σ u with hm | ⟨e, he, hl⟩
@@ -423,7 +428,7 @@ theorem inv_tail (hP : GSound T P) {s2 : St V Sto} (h : SInv T P s2) (hb : s2.ba
   cases hcl : P.closure s2.store (P.dec s2.cur) with
   | inconsistent =>
     simp only
-    refine ⟨h.chain, h.cover, h.storeOK, ?_, h.outT, h.outNodup, fun o ho => Or.inl (stored o ho), ?_, h.okc, h.oks, h.okstk⟩
+    refine ⟨h.chain, h.cover, h.storeOK, ?_, h.outT, h.outNodup, h.outTV, fun o ho => Or.inl (stored o ho), ?_, h.okc, h.oks, h.okstk⟩
     · intro _ σ u m; exact hP.cl_inc _ _ h.oks hokg hcl σ m (h.storeOK σ u)
     · intro hcc; simp only at hcc; rw [hc] at hcc; cases hcc
   | update r =>
@@ -433,7 +438,7 @@ theorem inv_tail (hP : GSound T P) {s2 : St V Sto} (h : SInv T P s2) (hb : s2.ba
     have hd := hP.dec_upd _ _ r h.oks h.okc hcl
     have hok := hP.ok_upd _ _ r h.oks h.okc hcl
     have base : SInv T P { s2 with cur := P.updV s2.cur r, stack := { choice := none, ng := r } :: s2.stack } := by
-      refine ⟨?_, ?_, h.storeOK, ?_, h.outT, h.outNodup, fun o ho => Or.inl (stored o ho), ?_, hok, h.oks, ?_⟩
+      refine ⟨?_, ?_, h.storeOK, ?_, h.outT, h.outNodup, h.outTV, fun o ho => Or.inl (stored o ho), ?_, hok, h.oks, ?_⟩
       · simp only [hd]
         exact Chain.plain _ _ _ (fun _ _ m => m) (h.chain.extend forced)
       · intro σ u
@@ -469,13 +474,14 @@ theorem iter_inv (hP : GSound T P) (k : Nat) {s s' : St V Sto} (h : SInv T P s) 
 /-- when the loop halts, every target model has been emitted, each output is a target model,
 and no output occurs twice -/
 theorem iter_done (hP : GSound T P) (k : Nat) {s s' : St V Sto} (h : SInv T P s) (hi : iter P k s = Res.done s') :
-    (∀ σ, T σ → ∃ o ∈ s'.out, Matches o σ) ∧ (∀ o ∈ s'.out, ∀ σ, Matches o σ → T σ) ∧ s'.out.Nodup := by
+    (∀ σ, T σ → ∃ o ∈ s'.out, Matches o σ) ∧ (∀ o ∈ s'.out, ∀ σ, Matches o σ → T σ) ∧ s'.out.Nodup ∧
+    (∀ o ∈ s'.out, P.twoVal o = true ∧ P.OkG o) := by
   unfold iter at hi
   simp only at hi
   by_cases hd : (step1 P k s).backtrack = true ∧ (step1 P k s).stack = []
   · rw [if_pos hd] at hi; cases hi
     have h1 := inv_step1 hP k h
-    refine ⟨?_, h1.outT, h1.outNodup⟩
+    refine ⟨?_, h1.outT, h1.outNodup, h1.outTV⟩
     intro σ hT
     false_or_by_contra
     rename_i hne
@@ -488,7 +494,8 @@ theorem iter_done (hP : GSound T P) (k : Nat) {s s' : St V Sto} (h : SInv T P s)
 /-- safety: if the search halts (with any fuel), it has emitted exactly the target models, each
 once. Holds for every heuristic oracle that proposes undecided statements. -/
 theorem run_exact (hP : GSound T P) : ∀ (fuel k : Nat) (s s' : St V Sto), SInv T P s → run P k fuel s = some s' →
-    (∀ σ, T σ → ∃ o ∈ s'.out, Matches o σ) ∧ (∀ o ∈ s'.out, ∀ σ, Matches o σ → T σ) ∧ s'.out.Nodup := by
+    (∀ σ, T σ → ∃ o ∈ s'.out, Matches o σ) ∧ (∀ o ∈ s'.out, ∀ σ, Matches o σ → T σ) ∧ s'.out.Nodup ∧
+    (∀ o ∈ s'.out, P.twoVal o = true ∧ P.OkG o) := by
   intro fuel
   induction fuel with
   | zero => intro k s s' _ hr; cases hr
@@ -505,7 +512,7 @@ theorem inv_init (g : V) (st : Sto) (hg : ∀ σ, T σ → Matches (P.dec g) σ)
     (hemp : ∀ x, ¬ P.Mem st x) :
     SInv T P { cur := g, store := st, stack := [], backtrack := false, choice := false, out := [] } := by
   refine ⟨Chain.nil _, fun σ u => Or.inl (hg σ u.1), (fun _ _ g' hx => absurd hx (hemp g')), (fun hb => by cases hb),
-    (fun _ ho => by cases ho), List.nodup_nil, (fun _ ho => by cases ho), (fun hc => by cases hc), hok, hoks,
+    (fun _ ho => by cases ho), List.nodup_nil, (fun _ ho => by cases ho), (fun _ ho => by cases ho), (fun hc => by cases hc), hok, hoks,
     (fun _ he => by cases he)⟩
 
 end NGen
